@@ -4,6 +4,7 @@
 //!   yvx-conform replay <cases.ndjson> --out <file>
 //!   yvx-conform buildinfo
 mod frames;
+mod gen_color;
 mod gen_tf;
 mod gen_yuv;
 mod util;
@@ -68,10 +69,15 @@ fn main() {
                 "C08" => gen_yuv::gen_c08(&mut sh, &o),
                 "C03" => gen_tf::gen_c03(&mut sh, &o),
                 "C10" => gen_tf::gen_c10(&mut sh, &o),
+                "C04" => gen_color::gen_c04(&mut sh, &o),
+                "C05" => gen_color::gen_c05(&mut sh, &o),
+                "C06" => gen_color::gen_c06(&mut sh, &o),
+                "C17" => gen_color::gen_c17(&mut sh, &o),
                 "C16" => {
                     let a = gen_yuv::gen_c16_yuv(&mut sh, &o);
                     let b = gen_tf::gen_c16_tf(&mut sh, &o);
-                    serde_json::json!({"grey_codes": a, "curve_anchor_samples": b, "samples": a + b})
+                    let c = gen_color::gen_c16_color(&mut sh, &o);
+                    serde_json::json!({"grey_codes": a, "curve_anchor_samples": b, "grey_pixels_xyb_hsl_primaries": c, "samples": a + b + c})
                 }
                 _ => {
                     eprintln!("unknown property {prop}");
